@@ -710,6 +710,15 @@ fn exec_e<B: Fld, E: Ext<B>>(raw: bool, t: &[&str]) -> Outcome {
                         acc = acc.conjugate();
                         va = oc.pow(&va, m);
                     },
+                    "frob" => {
+                        acc = E::mk(&E::t_frob(&acc.co()));
+                        va = oc.pow(&va, m);
+                    },
+                    "mb" => {
+                        // multiplication by the base element y[0]
+                        acc = acc.mul_base(y.co()[0]);
+                        va = oc.mul(&va, &oc.emb(vy[0]));
+                    },
                     "swap" => {
                         core::mem::swap(&mut acc, &mut y);
                         core::mem::swap(&mut va, &mut vy);
@@ -731,6 +740,17 @@ fn exec_e<B: Fld, E: Ext<B>>(raw: bool, t: &[&str]) -> Outcome {
                         va = if oc.is_zero(&vy) { oc.zero() } else { q };
                     },
                     _ => return Outcome::ok("bad-op"),
+                }
+                // judged at every step: value and representation invariant of every coordinate
+                if vals(&acc) != va {
+                    o = o.fail(
+                        format!("{}.seq.{}.value", E::TAG, s),
+                        format!("after `{}`: got {:?} expected {:?}", s, vals(&acc), va),
+                    );
+                    va = vals(&acc); // judge the following steps on their own
+                }
+                if acc.co().iter().any(|c| !B::raw_ok(c.raw_word())) {
+                    o = o.fail(format!("{}.seq.{}.raw-out-of-range", E::TAG, s), format!("after `{}`", s));
                 }
             }
             let e = acc == y;
@@ -954,6 +974,105 @@ fn gen_e<B: Fld, E: Ext<B>>(rng: &mut Rng, tier: Tier, n_rand: usize, emit: &mut
         }
     }
 
+
+    // operation sequences: sub / neg / add of small-integer, boundary and random elements (these produce the
+    // internal words in the upper part of the representation range) followed by conj / frob / inv / div / mul_base / sq
+    {
+        let finals: [&[&str]; 10] = [
+            &["conj"], &["frob"], &["inv"], &["swap", "div"], &["mb"], &["sq"], &["conj", "inv"], &["inv", "conj"], &["frob", "frob"],
+            &["mb", "inv"],
+        ];
+        let prefixes: [&[&str]; 8] =
+            [&["neg"], &["sub"], &["sub", "neg"], &["add", "neg"], &["neg", "sub"], &["sub", "sub"], &["dbl", "neg"], &["neg", "add"]];
+        // small-integer grid, negated / subtracted, then every final
+        let lim: u128 = if n == 2 { 24 } else { 12 };
+        let mut grid: Vec<Vec<u128>> = vec![vec![]];
+        for _ in 0..n {
+            let mut next = vec![];
+            for t in &grid {
+                for v in 0..lim {
+                    let mut t2 = t.clone();
+                    t2.push(v);
+                    next.push(t2);
+                }
+            }
+            grid = next;
+        }
+        let heavy = heavy_scale as usize;
+        for (gi, g) in grid.iter().enumerate() {
+            let other: Vec<u128> = (0..n).map(|_| rng.below(32) as u128).collect();
+            emit(format!("{} seq {} {} neg conj", tag, join(g), join(&other)));
+            if gi % heavy == 0 {
+                emit(format!("{} seq {} {} neg inv", tag, join(g), join(&other)));
+                let f = finals[gi % finals.len()];
+                let pre = prefixes[(gi / finals.len()) % prefixes.len()];
+                emit(format!("{} seq {} {} {} {}", tag, join(&other), join(g), pre.join(" "), f.join(" ")));
+            }
+        }
+        // random / boundary / small operands through every (prefix, final) pair
+        let reps = if tier == Tier::Quick { 6 / heavy.min(3) } else { 60 / heavy.min(3) };
+        for pre in prefixes.iter() {
+            for f in finals.iter() {
+                for r in 0..reps {
+                    let pick = |rng: &mut Rng| -> u128 {
+                        match r % 3 {
+                            0 => rnd(rng),
+                            1 => rng.below(64) as u128,
+                            _ => *rng.pick(&bnd),
+                        }
+                    };
+                    let a: Vec<u128> = (0..n).map(|_| pick(rng)).collect();
+                    let b: Vec<u128> = (0..n).map(|_| if rng.chance(1, 2) { pick(rng) } else { rnd(rng) }).collect();
+                    emit(format!("{} seq {} {} {} {}", tag, join(&a), join(&b), pre.join(" "), f.join(" ")));
+                    let a: Vec<u128> = (0..n).map(|_| if rng.chance(1, 3) { *rng.pick(&braw) } else { rnd_raw(rng) }).collect();
+                    let b: Vec<u128> = (0..n).map(|_| if rng.chance(1, 3) { *rng.pick(&braw) } else { rnd_raw(rng) }).collect();
+                    emit(format!("{} seq {} {} {} {}", rtag, join(&a), join(&b), pre.join(" "), f.join(" ")));
+                }
+            }
+        }
+    }
+    // raw-word grids of the 62-bit extensions: words around 0, M and 2M (the whole representation range [0, 2M))
+    // and random words of the upper half [M, 2M), in every coordinate
+    if f == "f62" {
+        let mut g: Vec<u128> = vec![0, 1, 2, m - 2, m - 1, m, m + 1, 2 * m - 3, 2 * m - 2, 2 * m - 1];
+        let unary = ["conj", "frob", "inv", "sq", "neg"];
+        let mut all: Vec<Vec<u128>> = vec![vec![]];
+        for _ in 0..n {
+            let mut next = vec![];
+            for t in &all {
+                for v in &g {
+                    let mut t2 = t.clone();
+                    t2.push(*v);
+                    next.push(t2);
+                }
+            }
+            all = next;
+        }
+        for t in &all {
+            for op in unary {
+                emit(format!("{} {} {}", rtag, op, join(t)));
+            }
+            emit(format!("{} mulbase {} {}", rtag, join(t), *rng.pick(&g)));
+        }
+        // sampled product with random upper-half words mixed in
+        for _ in 0..3 {
+            g.push(m + rng.u128() % m);
+        }
+        let samples = if tier == Tier::Quick { 1500 } else { 30000 };
+        for i in 0..samples {
+            let a: Vec<u128> = (0..n).map(|_| if rng.chance(1, 4) { m + rng.u128() % m } else { *rng.pick(&g) }).collect();
+            let b: Vec<u128> = (0..n).map(|_| if rng.chance(1, 4) { m + rng.u128() % m } else { *rng.pick(&g) }).collect();
+            match i % 6 {
+                0 => emit(format!("{} mul {} {}", rtag, join(&a), join(&b))),
+                1 => emit(format!("{} conj {}", rtag, join(&a))),
+                2 => emit(format!("{} inv {}", rtag, join(&a))),
+                3 => emit(format!("{} div {} {}", rtag, join(&a), join(&b))),
+                4 => emit(format!("{} aut {} {}", rtag, join(&a), join(&b))),
+                _ => emit(format!("{} seq {} {} sub frob inv", rtag, join(&a), join(&b))),
+            }
+        }
+    }
+
     // partial products / partial sums with boundary values: a_i * b_j = t, a_i + a_j = t, b_i + b_j = t
     let targets: Vec<u128> = bnd.iter().cloned().filter(|x| *x < m).collect();
     for t in &targets {
@@ -1124,7 +1243,7 @@ fn gen_e<B: Fld, E: Ext<B>>(rng: &mut Rng, tier: Tier, n_rand: usize, emit: &mut
                 if heavy_scale == 1 || i % 64 == 15 {
                     let len = rng.range(1, 10);
                     let ops: Vec<&str> = (0..len)
-                        .map(|_| *rng.pick(&["add", "sub", "mul", "neg", "dbl", "sq", "swap", "inv", "div", "conj", "add", "sub", "mul", "mul"]))
+                        .map(|_| *rng.pick(&["add", "sub", "mul", "neg", "dbl", "sq", "swap", "inv", "div", "conj", "frob", "mb", "add", "sub", "mul", "mul"]))
                         .collect();
                     emit(format!("{} seq {} {}", tg, el(rng, 2), ops.join(" ")))
                 } else {
@@ -1221,7 +1340,7 @@ impl Prop for P {
          boundary set (0,1,2,p-1,p-2,(p±1)/2,2^32,…) over both operands of mul; every boundary word of the base field (residues, and raw \
          internal words incl. non-normalised ones of the 62-bit field) in every coordinate position for every operation; operands whose \
          partial products / partial sums a_i*b_j, a_i+a_j equal boundary values; boundary exponents; boundary/malformed byte strings; \
-         slice reinterpretation of lists of every small length; seeded random operands and operation sequences. A case is non-trivial \
+         slice reinterpretation of lists of every small length; operation sequences (neg/sub/add of small-integer grids, boundary and random elements followed by conj/frob/inv/div/mul_base/square, judged at every step); raw-word grids around 0, M, 2M and random upper-half words for the 62-bit extensions; seeded random operands and operation sequences. A case is non-trivial \
          when it is distinct (hash of the op line); outputs are canonical integers and raw words of every coordinate"
     }
 }
